@@ -317,7 +317,7 @@ func checkMain(args []string) int {
 		inflight--
 		a := aggs[r.it.h.Fn]
 		if r.err != nil {
-			a.Aborts["worker failure: "+r.err.Error()]++
+			a.Aborts[fmt.Sprintf("worker failure: %v (prefix %v)", r.err, r.it.prefix)]++
 			r.w.cmd.Process.Kill()
 			r.w.cmd.Wait()
 			nwk, err := startWorker(r.w.id, self, *repo, hdir, *solver, tmo)
